@@ -65,7 +65,16 @@ def _self_grow(a, o):
 def _all_words_cfg():
     from pyformlang.cfg import CFG
     return CFG.from_text('S -> S S | a | b | c | $')
+def _self_remove_final(a, o):
+    fs = sorted({F.val(x) for x in a.final_states}, key=repr)
+    if not fs: return 'skip'
+    a.remove_final_state(fs[0]); return 'mutated'
+def _self_add_final(a, o):
+    nf = sorted({F.val(x) for x in a.states} - {F.val(x) for x in a.final_states}, key=repr)
+    if not nf: return 'skip'
+    a.add_final_state(nf[0]); return 'mutated'
 FA_OPS = {
+    'SELF.remove_final': _self_remove_final, 'SELF.add_final': _self_add_final,
     'SELF.grow': _self_grow,
     'operand_of_cfg_intersection': lambda a, o: s_cfg(_all_words_cfg().intersection(a)),
     'operand_of_pda_intersection': lambda a, o: (lambda r: s_pda(r) if r.start_state is not None else 'empty')(_all_words_cfg().to_pda().to_final_state().intersection(a)),
@@ -203,7 +212,7 @@ def cases(tier, seed):
         names = sorted(OPS_BY_KIND[kind])
         for q in [x for x in names if not x.startswith('SELF.')]:
             for m in [x for x in names if x.startswith('SELF.')]:
-                for rep in range(2 if tier == 'quick' else 6):
+                for rep in range(4 if tier == 'quick' else 12):
                     o, o2 = desc(kind)
                     yield {'kind': kind, 'obj': o, 'other': o2, 'history': [q, m, q], 'origin': 'query, mutate, same query'}
     # conversion - grow the object itself - same conversion (indices cached on State / StackSymbol objects by a previous converter)
